@@ -305,7 +305,7 @@ class Report:
             if v['signature'] in seen_sig:
                 continue
             seen_sig.add(v['signature'])
-            path = write_replay(self.prop, dict(property=self.prop, kind=v['kind'], seed=self.seed,
+            path = write_replay(self.prop, dict(property=self.prop, kind=v['kind'], seed=self.seed, tier=self.tier,
                                                 signature=v['signature'], what=v['what'], input=v['input'],
                                                 broken=[b['what'] for b in self.broken]))
             lines.append(f'VIOLATION property={self.prop} replay={path}')
@@ -314,7 +314,7 @@ class Report:
             # a proof obligation or the correspondence no longer checks; is it explained by a listed finding?
             unexplained = [b for b in self.broken if not b.get('explained_by_known')]
             if unexplained:
-                path = write_replay(self.prop, dict(property=self.prop, kind='proof-or-correspondence',
+                path = write_replay(self.prop, dict(property=self.prop, kind='proof-or-correspondence', tier=self.tier,
                                                     seed=self.seed, broken=unexplained))
                 lines.append(f'VIOLATION property={self.prop} replay={path} no-failing-input-found')
                 rc = 1
